@@ -12,7 +12,7 @@ TECHNIQUE = ("runtime contracts (icontract postconditions) on the real bit_to_nu
              "at boundary widths (around 32 and 64 bits, 0, 1000+)")
 LEVEL_TEXT = ("Held on every generated bit array / DNA string / number of this run: round trips at the original width, agreement "
               "of the string-typed and integer-typed paths, left padding; widths 0,1,2,7,8,9,31-33,63-65,100,257,1000 (4096 in "
-              "the thorough tier). Sampled; the contracts also fire on the internal uses by encode, decode, set_vt and repair_dna.")
+              "the thorough tier) and random widths 0..200. Sampled; the contracts also fire on the internal uses by encode, decode, set_vt and repair_dna.")
 LEVEL_NOTE = ("Trusts Python int. The integer path is driven with Python ints / lists (documented types; number_to_bit rejects "
               "numpy integers by design), the string path also with numpy arrays as encode passes them.")
 PLAN = {"quick": dict(shards=17, budget=40), "thorough": dict(shards=17, budget=300)}
@@ -104,7 +104,7 @@ def generate(ctx):
         return
     widths = WIDTHS + ctx.pick([300, 1000], [1000, 2000, 4096])
     for _ in range(ctx.pick(400, 3000)):
-        L = rng.choice(widths if rng.random() < 0.97 else widths[-1:])
+        L = rng.choice(widths if rng.random() < 0.97 else widths[-1:]) if rng.random() < 0.75 else rng.randint(0, 200)
         if L > 300 and rng.random() < ctx.pick(0.96, 0.85):
             L = rng.choice(WIDTHS)
         kind = rng.choice(["zeros", "ones", "leadzero", "single", "random", "random"])
